@@ -186,7 +186,7 @@ CHECKS = {
              "run on the real three-hop network; every wire message of all three servers is tapped with a global sequence "
              "number; ForwardingTrace replays the stamped sequence through the BOLT-2 bookkeeping of all four channel ends, "
              "checks the causal rules per payment and the recorded quiescent state (balances to the msat, active HTLCs, "
-             "circuits, payment results, invoice states).",
+             "circuits, payment results, invoice states). SwitchAck carries the outgoing channel's forwarding package as durable state (written LockedIn by the revocation, fwd filter, GC = real channelLink.loadAndRemove, Restart re-forwards the un-acked response of a package in any state; RemovedOnlyWhenDone, NothingStranded); CloseKeys: the circuits a persisted signature closes are recovered after a crash between the signature and DeleteCircuits, for settles and fails (NoCircuitLeftBehind), on a real channel pair, circuit map and channelLink.",
         note="the goroutine interleaving inside a node is the Go runtime's (thorough tier under -race), not enumerated - the "
              "weakest binding in this design; both links of a channel restart together; no fee updates/on-chain resolution/MPP; "
              "defects F17, F21, F22 found by this check were repaired (1abb1ae, ee7b02b, 1a31165) - F17/F21 have directed "
